@@ -13,7 +13,8 @@ EXPLANATION = (
     "instantiates bench::<I::Item, B>; everything inside OnceLock::get_or_init. R17.4 check before cast: in typed_args "
     "the TypeId equality dominates from_raw_parts; in bench the None arm diverges; the argument handed to the user "
     "function is typed_args[arg_index]. The macro side (one __DIVAN_ARGS per function, own type/const per "
-    "instantiation) is R12.2/R12.3 (C12).")
+    "instantiation) is R12.2/R12.3 (C12)."
+    " R17.5 macro side (engine E3, on the expansions of the corpus and of the repository's own programs): one shared argument cell (a static of type BenchArgs) per attributed function, every runner closure of every generic instantiation goes through that one cell, each GenericBenchEntry instantiates the function with the type / constant it is labelled with, and the args expression is the one written.")
 NOT_DECIDED = ["ToString/Debug output equality for user types", "programs outside the analysed macro corpus (C12)"]
 
 
@@ -400,53 +401,13 @@ MACRO_SIDE = {"args-runner", "shared-args", "one-__DIVAN_ARGS", "no-__DIVAN_ARGS
               "const_value-indexes-__DIVAN_CONSTS", "ty-names-a-listed-type", "runner-kind", "runs-own-function", "consts-as-written", "product-size"}
 
 
-class _MacroSide:
-    """View of the C12 expansion rules restricted to what C17 states (one shared argument cell per function, own type /
-    const / argument expression per instantiation); obligations are recorded under R17.5."""
-
-    def __init__(self, ctx):
-        self._c = ctx
-        self.tier = ctx.tier
-        self.extra = {}
-
-    def _mine(self, key):
-        return any(str(k) in MACRO_SIDE for k in key)
-
-    def check(self, cond, rule, key, msg, where=None, detail=None):
-        if self._mine(key):
-            return self._c.check(cond, "R17.5", key, msg, where, detail)
-        return bool(cond)
-
-    def fail(self, rule, key, msg, where=None):
-        if self._mine(key):
-            self._c.fail("R17.5", key, msg, where)
-
-    def ok(self, rule, instance, detail=None):
-        pass
-
-    def anchor(self, rule, what, found, floor=1, where=None):
-        n = found if isinstance(found, int) else len(found)
-        return n >= floor
-
-    def note(self, s):
-        pass
-
-    def saw(self, body):
-        pass
-
-    def __setattr__(self, k, v):
-        if k in ("_c", "tier", "extra"):
-            object.__setattr__(self, k, v)
-        else:
-            setattr(self._c, k, v)
-
-
 def run_extra(ctx):
     """R17.5 macro side: analysed on the expansions of the corpus and the repository's own attributed programs (engine E3)."""
     from . import C12
     C12.ensure_tool()
     ctx.cfg = "expand"
-    px = _MacroSide(ctx)
+    from .common import ExpansionView
+    px = ExpansionView(ctx, "R17.5", MACRO_SIDE)
     n = 0
     for t in C12.targets(ctx.tier):
         exp = C12.expand_target(t)
